@@ -239,6 +239,48 @@ fn sweep(ctx: &Ctx, rep: &mut Report) {
     rep.exhaustive.push("single-statement programs: every register combination and every in-range literal value of every instruction form".into());
 }
 
+/// Single tokens whose source text is longer than 65,535 bytes while the image still fits: string
+/// literals made of two-byte escapes / multi-byte characters, and a very long label name.
+fn long_tokens(ctx: &Ctx, rep: &mut Report) {
+    let mut n = 0u64;
+    let mut cases: Vec<Program> = Vec::new();
+    for (ch, counts) in [('\t', vec![32_766usize, 32_767, 32_768, 33_000]), ('é', vec![32_767, 32_768, 40_000]), ('日', vec![21_845, 21_846, 30_000]), ('a', vec![40_000])] {
+        for count in counts {
+            let text: String = std::iter::repeat(ch).take(count).collect();
+            cases.push(Program {
+                lines: vec![
+                    Line::stmt(Some("start"), Stmt::new(Op::Lea, &[0], Operand::Label("text".into()))),
+                    Line::stmt(None, Stmt::simple(Op::Puts)),
+                    Line::stmt(Some("text"), Stmt::new(Op::Stringz, &[], Operand::Str(text))),
+                    Line::stmt(Some("after"), Stmt::new(Op::Fill, &[], Operand::Lit(Lit::Hex(0xBEEF, 0)))),
+                    Line::stmt(None, Stmt::new(Op::Ld, &[1], Operand::Label("after".into()))),
+                ],
+            });
+        }
+    }
+    let long_name: String = std::iter::repeat('q').take(70_000).collect();
+    cases.push(Program {
+        lines: vec![
+            Line::stmt(Some(&long_name), Stmt::new(Op::Add, &[1, 1], Operand::Lit(Lit::Dec(1)))),
+            Line::stmt(None, Stmt::new(Op::Br(7, false), &[], Operand::Label(long_name.clone()))),
+            Line::stmt(None, Stmt::simple(Op::Halt)),
+        ],
+    });
+    for program in cases {
+        n += 1;
+        if !ctx.mine(n) {
+            continue;
+        }
+        let case = Case { program, stack: false, layouts: vec![Layout { seed: n, style: (n % 3) as u8, end: n % 2 == 0 }] };
+        judge_one(ctx, rep, &case, &mut |c| {
+            let mut o = judge_case(c);
+            o.label("token-longer-than-65535-bytes");
+            o
+        });
+    }
+    rep.exhaustive.push("single tokens around and beyond 65,535 source bytes: .stringz of 32,766..40,000 two-byte escapes / 2- and 3-byte characters, a 70,000-character label".into());
+}
+
 impl Prop for C01 {
     fn id(&self) -> &'static str {
         "C01"
@@ -247,7 +289,7 @@ impl Prop for C01 {
         "Programs are built inside the acceptance predicate from a constructive AST generator (all instruction, trap and directive forms; \
          boundary ∪ uniform literals in every spelling; label operands before/after/on the statement; origins incl. none/0/0x7FFF/0x8000/0xFDFF) \
          and rendered under 2-3 independent layouts; plus a deterministic sweep of every register combination and every in-range literal of \
-         every instruction form. Oracle: RefAsm's ISA encoder computed from the AST + all layouts give the same image. \
+         every instruction form; plus single tokens longer than 65,535 source bytes (.stringz of two-byte escapes and multi-byte characters, a 70,000-character label). Oracle: RefAsm's ISA encoder computed from the AST + all layouts give the same image. \
          Non-trivial: a backward AND a forward label reference, or a negative imm5/offset6/PC offset, or a non-default origin, or >= 2 labels. \
          Distinct = hash of (AST, layouts, feature flag)."
     }
@@ -260,6 +302,7 @@ impl Prop for C01 {
     }
     fn run_worker(&self, ctx: &Ctx, rep: &mut Report) {
         sweep(ctx, rep);
+        long_tokens(ctx, rep);
         let n = ctx.share(ctx.tier.pick(40_000, 400_000));
         let nl = ctx.tier.pick(2, 3);
         drive(ctx, rep, "programs", case_strategy(25, nl), n, &mut |c: &Case| judge_case(c));
